@@ -752,6 +752,12 @@ class ProcessStatus:
         :return: True if the process is not defined anywhere anymore.
         """
         del self.info_map[identifier]
+        if self.info_map:
+            # the process cannot be running on this Supvisors instance anymore
+            # re-evaluate the synthetic status from the remaining information
+            self.update_status(identifier, ProcessStates.STOPPED)
+        else:
+            self.running_identifiers.discard(identifier)
         return self.info_map == {}
 
     def update_status(self, identifier: str, new_state: ProcessStates) -> None:
